@@ -13,13 +13,14 @@ TYPES = ["Offset", "LocalTime", "LocalDate", "LocalDateTime", "AnnualDate", "Dur
 ROUND_TRIP_TOKENS = {
     "Offset": ["+", "-", "H", "HH", "m", "mm", "s", "ss", ":", "'x'", "\\:", " "],
     "LocalTime": ["H", "HH", "h", "hh", "m", "mm", "s", "ss", "fff", "ffffff", "fffffffff", "FFF", "FFFFFFFFF", ".fff", ".FFF", ";fff", ";FFFFFFFFF",
+                  "f", "ff", "ffff", "fffff", "F", "FFFF", ".ffff", ".FFFF", ".FFFFFF", ";FFFF", ".fffffff", ".FFFFFFFF",
                   "t", "tt", ":", ".", " ", "'at'", "\\h", "'.'", "\\."],
     "LocalDate": ["yyyy", "uuuu", "uuu", "uu", "u", "M", "MM", "MMM", "MMMM", "d", "dd", "ddd", "dddd", "g", "gg", "c", "/", "-", " ", "'of'", ",", "\\d"],
     "AnnualDate": ["M", "MM", "MMM", "MMMM", "d", "dd", "/", "-", " ", "'of'"],
 }
 ROUND_TRIP_TOKENS["Duration"] = ["D", "DD", "H", "HH", "h", "hh", "M", "MM", "m", "mm", "S", "SS", "s", "ss", "+", "-", ":", ".", " ", "'d'", "'.'", "\\.",
-                                 "fff", "fffffffff", "FFF", "FFFFFFFFF", ".fff", ".FFF", ".FFFFFFFFF"]
-ROUND_TRIP_TOKENS["Instant"] = ["uuuu", "uuu", "uu", "yyyy", "MM", "M", "dd", "d", "HH", "H", "mm", "m", "ss", "s", "fff", "FFFFFFFFF", ";FFF", ".fff", "'T'", "'Z'", ":", "-", "/", " "]
+                                 "fff", "fffffffff", "FFF", "FFFFFFFFF", ".fff", ".FFF", ".FFFFFFFFF", "ffff", ".FFFF", ".ff", ".FFFFFFF"]
+ROUND_TRIP_TOKENS["Instant"] = ["uuuu", "uuu", "uu", "yyyy", "MM", "M", "dd", "d", "HH", "H", "mm", "m", "ss", "s", "fff", "FFFFFFFFF", ";FFF", ".fff", ".FFFF", ".ffffff", "'T'", "'Z'", ":", "-", "/", " "]
 # embedded patterns: the spec sees the inner tokens spliced in (an embedded pattern captures exactly what its inner fields capture)
 EMBEDDED = {
     "ld<uuuu-MM-dd>": ["uuuu", "-", "MM", "-", "dd"],
@@ -81,35 +82,74 @@ def culture_seps(culture) -> tuple:
         return cps(":"), cps("/")
 
 
-def culture_flags(culture) -> tuple:
-    """(am/pm designators usable, month/day/era names usable) for a culture (None = invariant)."""
+def _fi(culture):
     from pyoda_time.globalization._pyoda_format_info import _PyodaFormatInfo
 
+    return _PyodaFormatInfo.invariant_info if culture is None else _PyodaFormatInfo._get_format_info(culture)
+
+
+def culture_flags(culture) -> tuple:
+    """(am/pm designators usable, month/day names usable) for a culture (None = invariant).
+
+    Names are usable when, as the property says, they are pairwise distinct (compared the way the parser compares:
+    ignoring case), non-empty and free of digits; the genitive and plain month tables are both consulted when parsing, so
+    a text shared between them must denote the same month."""
     try:
-        fi = _PyodaFormatInfo.invariant_info if culture is None else _PyodaFormatInfo._get_format_info(culture)
+        fi = _fi(culture)
         am, pm = fi.am_designator, fi.pm_designator
         ampm = bool(am) and bool(pm) and am != pm and am[0].lower() != pm[0].lower() and not any(ch.isdigit() for ch in am + pm)
-        names = []
-        for lst in (fi.long_month_names, fi.short_month_names, fi.long_month_genitive_names, fi.short_month_genitive_names,
-                    fi.long_day_names, fi.short_day_names):
-            xs = [x for x in list(lst)[1:13] if x is not None]
-            names.append(xs)
         ok = True
-        for xs in names:
-            low = [x.lower() for x in xs if x]
-            if len(low) != len(set(low)) or any(not x for x in xs) or any(ch.isdigit() for x in xs for ch in x):
+        tables = []
+        for lst in (fi.long_month_names, fi.short_month_names, fi.long_month_genitive_names, fi.short_month_genitive_names):
+            tables.append([x for x in list(lst)[1:13]])
+        days = [[x for x in list(lst)[1:8]] for lst in (fi.long_day_names, fi.short_day_names)]
+        for xs in tables + days:
+            if any(not x for x in xs) or any(ch.isdigit() for x in xs for ch in x):
                 ok = False
-            # a name that is a prefix of another makes the longest-match parse ambiguous
-            if any(a != b and b.startswith(a) for a in low for b in low):
+                continue
+            low = [x.lower() for x in xs]
+            if len(low) != len(set(low)):
                 ok = False
-        # genitive and plain forms are both tried when parsing: across the two tables no name may be a proper prefix of another
-        for plain, gen in ((names[0], names[2]), (names[1], names[3])):
-            allf = [x.lower() for x in plain + gen if x]
-            if any(a2 != b2 and b2.startswith(a2) for a2 in allf for b2 in allf):
-                ok = False
+        for plain, gen in ((tables[0], tables[2]), (tables[1], tables[3])):
+            if any(not x for x in plain + gen):
+                continue
+            for i, a2 in enumerate(plain):
+                for j, b2 in enumerate(gen):
+                    if i != j and a2.lower() == b2.lower():
+                        ok = False
         return ampm, ok
     except Exception:  # noqa: BLE001
         return False, False
+
+
+def name_extends(culture, tokens, month, dow) -> bool:
+    """Is a name this pattern prints for this value a proper prefix of another name the parser tries at the same place?
+
+    The parser takes the longest candidate matching at the cursor, so the printed name N is read back unless a longer
+    candidate starting with N also matches, which depends on the text that follows: such events make no claim."""
+    try:
+        fi = _fi(culture)
+        has_day = any(t in ("d", "dd") for t in tokens)
+        for t in tokens:
+            if t in ("MMM", "MMMM"):
+                plain = list(fi.short_month_names if t == "MMM" else fi.long_month_names)
+                gen = list(fi.short_month_genitive_names if t == "MMM" else fi.long_month_genitive_names)
+                n = (gen if has_day else plain)[month]
+                cands = [x for x in plain + gen if x]
+            elif t in ("ddd", "dddd") and dow is not None:
+                names = list(fi.short_day_names if t == "ddd" else fi.long_day_names)
+                n = names[dow]
+                cands = [x for x in names if x]
+            else:
+                continue
+            if not n:
+                return True
+            for f in (str.lower, str.casefold):
+                if any(len(x) > len(n) and f(x).startswith(f(n)) for x in cands):
+                    return True
+        return False
+    except Exception:  # noqa: BLE001
+        return True
 
 
 def gen(args) -> list:
@@ -162,6 +202,10 @@ def gen(args) -> list:
             ev = {"op": "rt", "type": typ, "pattern": pname, "tokens": tokens, "culture": culture.name if culture is not None else "",
                   "roundtrip_builtin": builtin, "ampm_ok": ampm_ok, "text_ok": text_ok, "value": fields(typ, v),
                   "time_sep": tsep if not builtin else cps(":"), "date_sep": dsep if not builtin else cps("/")}
+            if text_ok and any(t in ("MMM", "MMMM", "ddd", "dddd") for t in tokens):
+                dv = v.in_utc().date if typ == "Instant" else v.date if typ == "LocalDateTime" else v
+                if name_extends(culture, tokens, dv.month, dv.day_of_week.value if typ != "AnnualDate" else None):
+                    ev["text_ok"] = False
             if typ == "Duration":
                 ev["parts"] = fields("DurationParts", v)
             if typ == "Instant":
